@@ -33,6 +33,13 @@ for d in sorted(glob.glob(os.path.join(ROOT, "seeded", "C*-*"))):
                 old.append(body); new.append(body)
     flush()
     edits = [e for e in edits if e["old"] != e["new"]]
+    for e in edits:
+        # a hunk whose text occurs several times in the file (repeated parrot tables): apply it to all
+        try:
+            if open(os.path.join(os.environ.get("VERIF_REPO", "/repo"), e["file"]), errors="replace").read().count(e["old"]) > 1:
+                e["count"] = -1
+        except OSError:
+            pass
     meta = json.load(open(os.path.join(d, "meta.json")))
     if not meta.get("target_check_detects"):
         # not (yet) reported by the check of the property it was aimed at: listed in DESIGN.md 7.1,
